@@ -42,6 +42,7 @@ RULE_TEXT = (
     'pending) or ran on an app already moved; distinct = digest of the '
     'configuration tuple.')
 RULE_TEXT += ' 30% of the histories carry a second evolution-era model that a remaining migration deletes.'
+RULE_TEXT += ' 1 in 25: the handed-over app has an AppConfig label different from its module name.'
 ASSUMPTIONS = [
     'on a virgin database the tables can only come from the migrations '
     'themselves, so "without being executed" is judged only when the '
@@ -61,8 +62,89 @@ def _field(name, rng, kind=None):
     return {'name': name, 'kind': kind, 'attrs': attrs}
 
 
+def _gen_custom_label(rng):
+    """The handed-over app has an AppConfig label that differs from its
+    module name (package va, label store): everything recorded for it -
+    django_migrations rows, stored signature - goes by the label."""
+    base = {'name': 'Item', 'fields': [_field('a', rng, 'Integer')],
+            'meta': {}}
+    g = _field('g1', rng, 'Integer')
+    final = copy.deepcopy(base)
+    final['fields'].append(copy.deepcopy(g))
+    files = {
+        '0001_initial': {'from': 1, 'text': spec.render_migration(
+            [], [{'op': 'CreateModel', 'model': base}], initial=True)},
+        '0002_add_g1': {'from': 1, 'text': spec.render_migration(
+            [['store', '0001_initial']],
+            [{'op': 'AddField', 'model': 'Item', 'field': g,
+              'default': False}])}}
+    project = {'apps': {'va': {
+        'v0': [base], 'labels': ['store', 'store'],
+        'steps': [{'evos': [{'label': 'move', 'mutations': [
+            {'op': 'MoveToDjangoMigrations',
+             'mark_applied': ['0001_initial']}]}], 'target': [final]}],
+        'migrations': {'files': files}}},
+        'order': ['va'], 'databases': ['default']}
+    return {'kind': 'custom_label', 'project': project,
+            'virgin': rng.random() < 0.3}
+
+
+def _exec_custom_label(scn):
+    P = scn['project']
+    sts = proj.states(P)
+    stats, viols = {'custom_label': 1}, []
+    detail = dict(kind='custom_label', virgin=scn['virgin'])
+    res = {'violations': viols, 'stats': stats, 'nontrivial': True,
+           'shape': spec.canon(['custom_label', scn['virgin']]), 'runs': 0}
+    with runner.Workspace() as ws:
+        if not scn['virgin']:
+            proj.deploy(ws, P, 0, sts)
+            r0 = ws.run('evolve', {'execute': True})
+            if r0.status != 'ok':
+                raise runner.HarnessError('custom_label install: %s' % (
+                    (r0.exit or {}).get('msg'),))
+        proj.deploy(ws, P, 1, sts, clean=True)
+        r = ws.run('evolve', {'execute': True})
+        post = snapshot.snapshot(ws)
+        if r.status != 'ok':
+            viols.append(violation(
+                'C10.upgrade_failed', status=r.status,
+                msg=((r.exit or {}).get('msg') or '')[:300], **detail))
+            res['runs'] = ws.nruns
+            return res
+        names = sorted(x[2] for x in (post['book'].get('django_migrations')
+                                      or []) if x[1] == 'store')
+        if names != ['0001_initial', '0002_add_g1']:
+            viols.append(violation('C10.marked_recorded_count',
+                                   migration='*', count=len(names),
+                                   table=names, **detail))
+        sig = (c03.stored_apps(post) or {}).get('store') or {}
+        if sig.get('upgrade_method') != 'migrations':
+            viols.append(violation('C10.not_moved', upgrade_method=sig.get(
+                'upgrade_method'), **detail))
+        if sorted(set(sig.get('applied_migrations') or [])) != names:
+            viols.append(violation('C10.sig_migrations_mismatch',
+                                   sig=sig.get('applied_migrations'),
+                                   table=names, **detail))
+        if 'g1' not in (post['tables'].get('store_item') or {}).get(
+                'columns', {}):
+            viols.append(violation('C10.remaining_not_executed',
+                                   want=['0002_add_g1'], executed=[],
+                                   **detail))
+        r2 = ws.run('evolve', {'execute': True})
+        if r2.status != 'ok' or r2.writes():
+            viols.append(violation('C10.rerun_not_noop', status=r2.status,
+                                   out=(r2.stdout() + r2.stderr())[-200:],
+                                   writes=len(r2.writes()), **detail))
+        res['runs'] = ws.nruns
+        res['sample'] = dict(detail)
+    return res
+
+
 def generate(seed, index, tier):
     rng = scenarios.derive_rng(seed, ID, index)
+    if index % 25 == 24:
+        return _gen_custom_label(rng)
     k = rng.choice([0, 1, 1, 2])
     remaining = rng.choice([0, 1, 1, 2])
     style = rng.choice(['mirror', 'squash'])
@@ -207,6 +289,8 @@ def va_migration_rows(snap):
 
 
 def execute(scn):
+    if scn.get('kind') == 'custom_label':
+        return _exec_custom_label(scn)
     P = scn['project']
     sts = proj.states(P)
     stats, viols = {}, []
@@ -470,6 +554,8 @@ def execute(scn):
 
 
 def shrinks(scn):
+    if scn.get('kind') == 'custom_label':
+        return
     P = scn['project']
     if scn.get('fault'):
         c = copy.deepcopy(scn)
